@@ -345,35 +345,38 @@ class VolumeMesh(Mesh):
             for e,(A,B) in enumerate(self.mesh.edges):
                 keys_cell = dict()
                 keys_face = dict()
-                kc = 0
-                kf = 0
-                iC = self._adjE2C[e][0]
-                keys_cell[iC] = kc
-                p1,p2 = (x for x in self.mesh.cells[iC] if x not in (A,B)) # pivots
-                while True:
-                    face = self.face_id(A,B,p1)
-                    kf += 1
-                    keys_face[face] = kf
-                    nextC = self.other_face_side(iC,face)
-                    if nextC is None or nextC in keys_cell: break # we have gone full circle
-                    kc += 1
-                    keys_cell[nextC] = kc
-                    iC = nextC
-                    p1 = [x for x in self.mesh.cells[iC] if x not in (A,B,p1)][0]
-                
-                kc = 0
-                kf = 0
-                iC = self._adjE2C[e][0]
-                while True:
-                    face = self.face_id(A,B,p2)
-                    kf -= 1
-                    keys_face[face] = kf
-                    nextC = self.other_face_side(iC,face)
-                    if nextC is None or nextC in keys_cell: break # we have gone full circle
-                    kc -= 1
-                    keys_cell[nextC] = kc
-                    iC = nextC
-                    p2 = [x for x in self.mesh.cells[iC] if x not in (A,B,p2)][0]
+                # the cells around an edge may form several fans (cells touching along the edge only): one walk per fan
+                for fan, start in enumerate(list(self._adjE2C[e])):
+                    if start in keys_cell: continue
+                    kc = 0
+                    kf = 0
+                    iC = start
+                    keys_cell[iC] = (fan,kc)
+                    p1,p2 = (x for x in self.mesh.cells[iC] if x not in (A,B)) # pivots
+                    while True:
+                        face = self.face_id(A,B,p1)
+                        kf += 1
+                        keys_face[face] = (fan,kf)
+                        nextC = self.other_face_side(iC,face)
+                        if nextC is None or nextC in keys_cell: break # we have gone full circle
+                        kc += 1
+                        keys_cell[nextC] = (fan,kc)
+                        iC = nextC
+                        p1 = [x for x in self.mesh.cells[iC] if x not in (A,B,p1)][0]
+                    
+                    kc = 0
+                    kf = 0
+                    iC = start
+                    while True:
+                        face = self.face_id(A,B,p2)
+                        kf -= 1
+                        keys_face[face] = (fan,kf)
+                        nextC = self.other_face_side(iC,face)
+                        if nextC is None or nextC in keys_cell: break # we have gone full circle
+                        kc -= 1
+                        keys_cell[nextC] = (fan,kc)
+                        iC = nextC
+                        p2 = [x for x in self.mesh.cells[iC] if x not in (A,B,p2)][0]
                 self._adjE2C[e].sort(key= lambda c : keys_cell[c])
                 self._adjE2F[e].sort(key= lambda f : keys_face[f])
 
